@@ -1461,6 +1461,10 @@ func c13RunCase(rep *ev.Report, cs c13Case, verbose bool) {
 // driver
 
 func c13Child(ctx *runCtx, spec string) {
+	if strings.HasPrefix(spec, "self ") {
+		c13SelfChild(ctx, spec)
+		return
+	}
 	var from, to int
 	fmt.Sscanf(spec, "%d:%d", &from, &to)
 	cases := c13Cases(ctx.seed, ctx.tier)
@@ -1544,6 +1548,10 @@ func c13Run(ctx *runCtx) int {
 		batches = append(batches, batch{Spec: fmt.Sprintf("%d:%d", i, to), Timeout: 20 * time.Minute})
 	}
 	parallel := 8
+	// the cluster drives itself (c13_self.go)
+	for i, cfg := range []string{"R=1 P=23", "R=2 P=31"} {
+		batches = append(batches, batch{Spec: fmt.Sprintf("self %s seed=%d", cfg, ctx.seed*10+int64(i)), Timeout: 10 * time.Minute})
+	}
 	runBatches(ctx, batches, parallel, func(b batch, res batchResult, tail string) {
 		last := c13LastCase(res.LogPath)
 		if !res.Merged {
